@@ -55,6 +55,27 @@ def check(s):
                     con = f"{cls}.{meth}:vmap({fname})"
                     axes = dict(c[1][2]).get("in_axes", dict(c[1][2]).get("#1"))
                     args = c[2]
+                    if isinstance(fnode, Closure) and fnode.qualname is None:
+                        # a local function / lambda is mapped: every key it consumes has to come from ITS OWN (mapped) parameters; a key
+                        # captured from the enclosing iteration is one key for all environments, whatever is split and mapped beside it
+                        try:
+                            body_v = b.apply(fnode, tuple(("param", f"$v{i_}") for i_ in range(len(args))), ())
+                        except AnalysisError:
+                            body_v = None
+                        if body_v is not None:
+                            shared_keys = []
+                            for x in walk(body_v):
+                                if not (isinstance(x, tuple) and x and x[0] == "call"):
+                                    continue
+                                ks_ = [v for k_, v in x[3] if k_ == "key"]
+                                if isinstance(x[1], tuple) and x[1][0] == "global" and x[1][1].startswith("jax.random.") and x[2]:
+                                    ks_.append(x[2][0])
+                                for kn in ks_:
+                                    if not any(isinstance(y, tuple) and len(y) == 2 and y[0] == "param" and str(y[1]).startswith("$v") for y in walk(kn)):
+                                        shared_keys.append(show(kn, maxlen=60))
+                            s.ob("C12.2", con, not shared_keys, "every key consumed inside the mapped function derives from its own mapped parameters (no key captured from the enclosing scope)",
+                                 loc, key="captured-key", detail="; ".join(sorted(set(shared_keys))[:4]),
+                                 necessary_for="N parallel collections equal N independent ones: every random draw of a rollout comes from that environment's own key")
                     ok_shape = isinstance(axes, tuple) and axes[0] == "tuple" and len(axes[1]) == len(args) and not c[3]
                     s.ob("C12.2", con, ok_shape, "in_axes is a tuple with one entry per positional argument", loc, key="in-axes-shape", detail=f"in_axes={show(axes or NONE)}; {len(args)} args")
                     if not ok_shape:
